@@ -2,7 +2,7 @@
    `decode` is the model of BDecoder::from_array (BCodec.v); WfSeq is the
    independent grammar (BGrammar.v); decode_strict is its executable recogniser. *)
 From Coq Require Import String.
-From Rdest Require Import Base BCodec BGrammar BProofs.
+From Rdest Require Import Base BCodec BGrammar BProofs DeepProofs.
 Open Scope N_scope.
 
 (* FULL STATEMENT (false of the code, see C16_refuted_unterminated):
@@ -55,3 +55,10 @@ Print Assumptions C16_complete.
 Print Assumptions C16_strict_iff.
 Print Assumptions C16_sound_partial.
 Print Assumptions C16_refuted_unterminated.
+
+(* nesting depth: the grammar and the model decoder accept well-formed nesting of EVERY depth (the model is fuelled by
+   the input length, it has no stack) -- which is what the property demands of the implementation; the recursive
+   implementation exhausts the native stack instead (known finding stack-exhaustion-on-deep-nesting, Corr/Deep.v) *)
+Theorem C16_every_depth_accepted : forall n, decode (nested_text n) = Ok [nested n].
+Proof. exact nested_accepted. Qed.
+Print Assumptions C16_every_depth_accepted.
